@@ -66,6 +66,7 @@ func (fr *frame) call(ci ssa.CallInstruction, res ssa.Value, st *State, reach st
 			callee = fv.Clo.Fn
 		} else {
 			ft.havoced["dynamic call in "+fr.fn.String()] = true
+			fr.extCall("dynamic call", reach)
 			setRes(fr.havocResult(sig.Results(), st))
 			return
 		}
@@ -118,6 +119,7 @@ func (fr *frame) call(ci ssa.CallInstruction, res ssa.Value, st *State, reach st
 	if callee != nil && c == nil && isGeneratedPB(g, callee) && !strings.HasPrefix(callee.Name(), "Get") {
 		// generated protobuf code is not verified (E-codec): only its getters are inlined; anything else needs an assumed contract
 		ft.havoced[key+" (generated *.pb.go, assumed total and effect-free)"] = true
+		fr.extCall(key, reach)
 		setRes(fr.havocResult(sig.Results(), st))
 		return
 	}
@@ -130,6 +132,7 @@ func (fr *frame) call(ci ssa.CallInstruction, res ssa.Value, st *State, reach st
 	}
 	// closures created in this function and passed elsewhere are handled by intrinsics; here: unknown external
 	ft.havoced[key] = true
+	fr.extCall(key, reach)
 	setRes(fr.havocResult(sig.Results(), st))
 }
 
@@ -633,3 +636,40 @@ func isGeneratedPB(g *Gen, fn *ssa.Function) bool {
 
 // verifyingSpec: while a specialised contract is being verified, calls to the same function are not cut by it.
 func (ft *FT) verifyingSpec(c *Contract) bool { return ft.c == c }
+
+// pureExternals: calls without a contract that are known to neither touch chain state nor to be a source of
+// nondeterminism (formatting, error text, logging, generated marshalling helpers). Everything else without a contract
+// yields an "extcall" obligation that only unreachability can discharge; it is counted for the frame properties (C09, C15).
+var pureExternalPrefixes = []string{"fmt.Sprintf", "fmt.Sprint", "(error).Error", "(github.com/cometbft/cometbft/libs/log.Logger).", "strings.", "strconv.", "bytes.",
+	"(*github.com/cosmos/cosmos-sdk/types.EventManager).", "github.com/cosmos/cosmos-sdk/types.NewEvent", "github.com/cosmos/cosmos-sdk/types.NewAttribute", "errors.", "cosmossdk.io/errors.",
+	"google.golang.org/grpc/status.", "encoding/base64.", "encoding/hex."}
+
+var nondetSources = []string{"time.Now", "time.Since", "math/rand.", "crypto/rand.", "os.", "runtime.", "(*math/rand.Rand)."}
+
+func (fr *frame) extCall(key string, reach string) {
+	ft := fr.ft
+	for _, n := range nondetSources {
+		if strings.HasPrefix(key, n) {
+			ft.addObl(fr, "nondet", fr.tag+shortKey(key), reach, "false", "call to a source of nondeterminism: "+key, []string{"C09"}, nil)
+			return
+		}
+	}
+	pure := strings.Contains(key, "generated *.pb.go")
+	for _, p := range pureExternalPrefixes {
+		if strings.HasPrefix(key, p) {
+			pure = true
+		}
+	}
+	if isGeneratedKey(key) {
+		pure = true
+	}
+	goal := "false"
+	if pure {
+		goal = "true"
+	}
+	ft.addObl(fr, "extcall", fr.tag+shortKey(key), reach, goal, "call to a function without contract (must be known effect-free): "+key, []string{"C09", "C15"}, nil)
+}
+
+func isGeneratedKey(key string) bool {
+	return strings.Contains(key, ".pb.go") || strings.HasSuffix(key, ").String") || strings.HasSuffix(key, ").ProtoMessage") || strings.HasSuffix(key, ").Reset")
+}
